@@ -548,11 +548,14 @@ def o_interleave(ctx):
     impl = impl_mod()
     small = [PERTURB[0], PERTURB[1], PERTURB[3], PERTURB[9], "Feature: a\n@t\n\nScenario: b\nGiven c\n", "#language: ja\n機能: f\n",
              "Feature: z\n  Scenario Outline: o\n  Given <x>\n  Examples:\n  |x|\n  |1|\n",
-             "Feature: q\n  Scenario: a\n    Given x\n  @t1\n  # c\n\n  @t2\n  Scenario: b\n    Given y\n  @t3\n  Scenario: c\n"]
+             "Feature: q\n  Scenario: a\n    Given x\n  @t1\n  # c\n\n  @t2\n  Scenario: b\n    Given y\n  @t3\n  Scenario: c\n",
+             # the end of file reached inside a look-ahead, reported as unexpected, or held while other parsers run
+             "Feature: e\n  Scenario: s\n    Given g\n  @held\n  # c\n\n", "Feature: e\n  Scenario: s\n    Given g\n      \"\"\"\n      open\n", "@only\n", "",
+             "Feature: e\n  Scenario Outline: o\n    Given <a>\n    @t\n"]
     alone = {s: impl.parse(False, "en", s) for s in small}
     r = rng("c15i")
 
-    def run_schedule(srcs, sched, default_matcher=False):
+    def run_schedule(srcs, sched, default_matcher=False, join_timeout=20):
         n = len(srcs)
         turn = {"who": None}
         cv = threading.Condition()
@@ -617,7 +620,7 @@ def o_interleave(ctx):
         with cv:
             cv.notify_all()
         for t in ths:
-            t.join(timeout=20)
+            t.join(timeout=join_timeout)
         return results
 
     items = []
@@ -628,9 +631,19 @@ def o_interleave(ctx):
         sched = [r.randrange(k) for _ in range(total + 4)]
         items.append((srcs, sched, r.random() < 0.5))
 
+    tripped = [False]
+
     def check(it):
         srcs, sched, dm = it
+        if tripped[0]:
+            return None          # one schedule that never finished has been reported; do not wait for the others
         res = run_schedule(srcs, sched, dm)
+        if any(x is None for x in res):
+            # a thread that did not finish in time: a busy machine is not a finding -- run the schedule again, patiently
+            res = run_schedule(srcs, sched, dm, join_timeout=120)
+            if any(x is None for x in res):
+                tripped[0] = True
+                return {"what": "an interleaved parse did not finish (threads still waiting after 120 s)", "sources": [s[:40] for s in srcs]}
         for s, x in zip(srcs, res):
             want = {k: v for k, v in alone[s].items() if k in ("ok", "errors", "error")}
             if x is None or canon(x) != canon(want):
@@ -2715,8 +2728,13 @@ def o_hash_seeds(ctx):
     env0 = dict(os.environ, PYTHONPATH=os.path.join(REPO, "python"), PYTHONDONTWRITEBYTECODE="1")
     outs = {}
     for seed in ("0", "1", "2", "77", "12345", "4294967295")[:S.n_for(4, 6)]:
-        pr = subprocess.run([sys.executable, "-c", script], input=json.dumps(docs), capture_output=True, text=True, env=dict(env0, PYTHONHASHSEED=seed), timeout=120)
+        try:
+            pr = subprocess.run([sys.executable, "-c", script], input=json.dumps(docs), capture_output=True, text=True, env=dict(env0, PYTHONHASHSEED=seed), timeout=600)
+        except subprocess.TimeoutExpired:
+            continue        # a busy machine is not a finding; the seeds that did run are compared
         outs[seed] = pr.stdout if pr.returncode == 0 else "exit %d: %s" % (pr.returncode, pr.stderr[-300:])
+    if "0" not in outs:
+        outs["0"] = next(iter(outs.values()), "[]")
     ref = outs["0"]
 
     def check(i):
@@ -2814,3 +2832,300 @@ def o_error_location_consistency(ctx):
 
 for _pid in ("C04", "C05", "C14"):
     P.PROPS[_pid]["streams"].append(o_error_location_consistency)
+
+
+# ---------------------------------------------------------------- entry points that share nothing (round 11)
+def _dialect_pool():
+    """plain documents of every dialect using every step keyword ('* ' included), doc strings of every delimiter
+    (four backticks included), a table and tags"""
+    D = S.dialects()
+    out = []
+    for code in sorted(D):
+        d = D[code]
+        head = "# language: %s\n" % code
+        steps = [k for role in ("given", "when", "then", "and", "but") for k in d[role]]
+        seen, uniq = set(), []
+        for k in steps:
+            if k not in seen:
+                seen.add(k)
+                uniq.append(k)
+        body = "".join("    %sx%d\n" % (k, i) for i, k in enumerate(uniq))
+        out.append(head + "%s: f\n  %s: b\n    * first\n  %s: s\n%s" % (d["feature"][0], d["background"][0], d["scenario"][0], body))
+    en = ["Feature: f\n  Scenario: s\n    Given a\n      ````\n      four\n      ````\n    And b\n      ```\n      three\n      ```\n    And c\n      \"\"\"\n      quotes\n      \"\"\"\n",
+          "Feature: f\n  Scenario: s\n    * a\n      ```md\n      ````\n      ```\n    * b\n      | c |\n",
+          "Feature: f\n  Scenario: s\n    Given a\n      ````\n      never closed by three\n      ```\n",
+          "Feature: f\n\n  * not a step here\n  Scenario: s\n    * a step\n    - not a step\n    + neither\n"]
+    return out + en
+
+
+def o_markdown_coexists(ctx):
+    """the Markdown matcher and the plain matcher live in one process: constructing and using a Markdown matcher (any
+    dialect) changes nothing for plain documents parsed before and after it, and leaves the in-memory dialect table equal
+    to the shipped one (run in a fresh interpreter, so that the order of construction is the one written here)"""
+    import subprocess
+    from common import REPO
+    pool = _dialect_pool()
+    md = "# Feature: f\n\n## Scenario: s\n\n* Given a\n* When b\n\n```\ndoc\n```\n\n| a |\n|---|\n| 1 |\n"
+    script = ("import sys, json, copy\nfrom gherkin.parser import Parser\nfrom gherkin.token_matcher import TokenMatcher\n"
+              "from gherkin.errors import CompositeParserException, ParserException\n"
+              "import gherkin.dialect as GD\n"
+              "inp = json.loads(sys.stdin.read())\n"
+              "def plain(d):\n"
+              "    try:\n"
+              "        return Parser().parse(d, TokenMatcher('en'))\n"
+              "    except CompositeParserException as e:\n"
+              "        return [str(x) for x in e.errors]\n"
+              "    except ParserException as e:\n"
+              "        return [str(e)]\n"
+              "    except Exception as e:\n"
+              "        return 'foreign ' + type(e).__name__\n"
+              "table0 = copy.deepcopy(GD.DIALECTS)\n"
+              "before = [plain(d) for d in inp['pool']]\n"
+              "from gherkin.token_matcher_markdown import GherkinInMarkdownTokenMatcher as M\n"
+              "mds = []\n"
+              "for code in inp['codes']:\n"
+              "    m = M(code)\n"
+              "    try:\n"
+              "        mds.append(json.dumps(Parser().parse(inp['md'], m)))\n"
+              "    except Exception as e:\n"
+              "        mds.append(type(e).__name__)\n"
+              "mid = [plain(d) for d in inp['pool']]\n"
+              "m = M('en')\n"
+              "for d in inp['pool'][:40]:\n"
+              "    try:\n"
+              "        Parser().parse(d, m)\n"
+              "    except Exception:\n"
+              "        pass\n"
+              "after = [plain(d) for d in inp['pool']]\n"
+              "sys.stdout.write(json.dumps({'before': before, 'mid': mid, 'after': after, 'table_same': table0 == GD.DIALECTS,\n"
+              "    'table': {c: GD.DIALECTS[c] for c in GD.DIALECTS if GD.DIALECTS[c] != table0.get(c)}, 'md_en': mds[inp['codes'].index('en')]}))\n")
+    env0 = dict(os.environ, PYTHONPATH=os.path.join(REPO, "python"), PYTHONDONTWRITEBYTECODE="1", PYTHONHASHSEED="0")
+    codes = sorted(S.dialects())
+    try:
+        pr = subprocess.run([sys.executable, "-c", script], input=json.dumps({"pool": pool, "codes": codes, "md": md}), capture_output=True, text=True, env=env0, timeout=900)
+        rep = json.loads(pr.stdout) if pr.returncode == 0 else {"crash": "exit %d: %s" % (pr.returncode, pr.stderr[-400:])}
+    except subprocess.TimeoutExpired:
+        rep = None        # a busy machine is not a finding
+    want_tab = S.dialects()
+
+    def check(i):
+        if rep is None:
+            return None
+        if "crash" in rep:
+            return {"what": "the interpreter that builds Markdown matchers between plain parses failed: " + rep["crash"]}
+        if i == len(pool):
+            if not rep["table_same"]:
+                return {"what": "the in-memory dialect table changed while Markdown matchers were built and used", "changed": sorted(rep["table"])[:5]}
+            return None
+        b, m_, a = rep["before"][i], rep["mid"][i], rep["after"][i]
+        if canon(b) != canon(m_) or canon(b) != canon(a):
+            return {"what": "a plain document parses differently once a Markdown matcher has been built or used in the same process",
+                    "before": canon(b)[:300], "after": canon(m_ if canon(b) != canon(m_) else a)[:300]}
+        if isinstance(b, str):
+            return {"what": "a plain document raised a foreign exception: " + b}
+        return None
+    return oracle("markdown-coexists", list(range(len(pool) + 1)), check, describe=lambda i: pool[i][:70] if i < len(pool) else "dialect table")
+
+
+for _pid in ("C05", "C13", "C19", "C15", "C12"):
+    P.PROPS[_pid]["streams"].append(o_markdown_coexists)
+
+
+def o_call_isolation(ctx):
+    """what a call returned belongs to its caller, and objects constructed with defaults are independent: (a) a result
+    (AST or list of errors) is not changed by later calls on the same parser; (b) changing a returned AST or pickle list
+    in place does not change what later calls return; (c) two default-constructed parsers / builders / compilers number
+    their results alike"""
+    import copy as _copy
+    impl = impl_mod()
+    docs = ["", "# just a comment\n", "\n\n", "Feature: f\n  # c1\n  Scenario: s\n    Given g\n  # c2\n", "# c0\nFeature: g\n  @t\n  Scenario Outline: o\n    Given <a>\n    Examples:\n      | a |\n      | 1 |\n# c3\n",
+            "Feature: bad\n  oops\n  nope\n", "# c4\n@t\n", "Feature: f\n  Background:\n    Given b\n  Rule: r\n    Scenario: s\n      Given g\n        | a |\n# tail\n",
+            "#language: fr\nFonctionnalité: f\n  # c\n  Scénario: s\n    Soit x\n"]
+
+    def run(p, src, m=None):
+        try:
+            return ("ok", p.parse(impl.source_arg(src), m) if m is not None else p.parse(impl.source_arg(src)))
+        except impl.CompositeParserException as e:
+            return ("errors", e)
+        except impl.ParserException as e:
+            return ("error", e)
+
+    def view(r):
+        k, v = r
+        return canon(v) if k == "ok" else canon([impl.err_json(x) for x in (v.errors if k == "errors" else [v])])
+
+    def scribble(v):
+        """change a returned value in place, everywhere"""
+        if isinstance(v, dict):
+            for x in list(v.values()):
+                scribble(x)
+            v["scribbled"] = True
+        elif isinstance(v, list):
+            for x in v:
+                scribble(x)
+            v += [{"scribbled": True}]
+
+    items = [("later", a, b, shared_m) for a in docs for b in docs[:6] for shared_m in (False, True)]
+    items += [("scribble-ast", a, b, False) for a in docs for b in docs[:5]]
+    items += [("scribble-pickles", a, b, False) for a in docs for b in docs[:5]]
+    items += [("defaults", a, None, False) for a in docs]
+
+    def check(it):
+        kind, a, b, shared_m = it
+        if kind == "later":
+            p = impl.Parser(impl.AstBuilder(impl.CountingIdGen()))
+            m = impl.TokenMatcher("en") if shared_m else None
+            ra = run(p, a, m)
+            snap = view(ra)
+            for nxt in (b, a):
+                run(p, nxt, m)
+                if view(ra) != snap:
+                    return {"what": "a result changed after a later parse on the same parser", "was": snap[:300], "now": view(ra)[:300]}
+            return None
+        if kind == "scribble-ast":
+            p = impl.Parser(impl.AstBuilder(impl.CountingIdGen()))
+            want_b = view(run(impl.Parser(impl.AstBuilder(impl.CountingIdGen())), b))
+            ra = run(p, a)
+            if ra[0] == "ok":
+                scribble(ra[1])
+            p2 = impl.Parser(impl.AstBuilder(impl.CountingIdGen()))
+            for q in (p2, impl.Parser(impl.AstBuilder(impl.CountingIdGen()))):
+                got = view(run(q, b))
+                if got != want_b:
+                    return {"what": "a parse returns something else after an earlier AST was changed in place", "want": want_b[:300], "got": got[:300]}
+            return None
+        if kind == "scribble-pickles":
+            def comp(c, g, src):
+                r = run(impl.Parser(impl.AstBuilder(g)), src)
+                if r[0] != "ok":
+                    return None
+                d = r[1]
+                d["uri"] = "u"
+                return c.compile(d)
+            g0 = impl.CountingIdGen()
+            want_b = canon(comp(impl.Compiler(g0), g0, b))
+            g1 = impl.CountingIdGen()
+            c1 = impl.Compiler(g1)
+            pa = comp(c1, g1, a)
+            if pa is not None:
+                scribble(pa)
+            g1.n = 0
+            got1 = canon(comp(c1, g1, b))
+            g2 = impl.CountingIdGen()
+            got2 = canon(comp(impl.Compiler(g2), g2, b))
+            for got in (got1, got2):
+                if got != want_b:
+                    return {"what": "a compile returns something else after an earlier pickle list was changed in place", "want": want_b[:300], "got": got[:300]}
+            return None
+        # defaults
+        first = view(run(impl.Parser(), a))
+        impl.Parser()
+        second = view(run(impl.Parser(), a))
+        if first != second:
+            return {"what": "two default-constructed parsers give different results for the same document", "first": first[:300], "second": second[:300]}
+        third = view(run(impl.Parser(impl.AstBuilder()), a))
+        if third != first:
+            return {"what": "a parser over a default-constructed builder gives another result than a default-constructed parser", "first": first[:300], "third": third[:300]}
+        r = run(impl.Parser(), a)
+        if r[0] == "ok":
+            def pick():
+                d = _copy.deepcopy(r[1])
+                d["uri"] = "u"
+                return canon(impl.Compiler().compile(d))
+            x, y = pick(), pick()
+            if x != y:
+                return {"what": "two default-constructed compilers give different pickles for the same document", "first": x[:300], "second": y[:300]}
+        return None
+    return oracle("call-isolation", items, check, describe=lambda it: [it[0], (it[1] or "")[:40], (it[2] or "")[:40], it[3]])
+
+
+for _pid in ("C03", "C04", "C06", "C11", "C15"):
+    P.PROPS[_pid]["streams"].append(o_call_isolation)
+
+
+def c02_docstring_closers(ctx):
+    """inside a doc string only a line that is exactly the opening delimiter (blanks around it allowed) closes it: the
+    delimiter followed by text, the other delimiter, a longer run of the delimiter character are content; what follows
+    the real closing line is read as usual"""
+    srcs = []
+    for d, o in (('"""', "```"), ("```", '"""')):
+        inner = [d + "json", d + " json", d + d, d + d[0], o, o + "x", "  " + d + "x", d + "\t", d + "  ", "\\" + d, d[:2], "x" + d, d + "#c", d + " " + d]
+        for ln in inner:
+            for after in ("    And h\n", "  @t\n  Scenario: t\n", "      | a |\n", "", "    " + d + "\n", "  Examples:\n"):
+                srcs.append("Feature: f\n  Scenario: s\n    Given g\n      %s\n      body\n      %s\n      more\n      %s\n%s" % (d, ln, d, after))
+                srcs.append("Feature: f\n  Background:\n    Given g\n      %smedia\n      %s\n%s" % (d, ln, after))
+    return e2e("docstring-closers", srcs, lambda r, req=None: {"ok": erase_ids_locs(r["ok"])} if "ok" in r else {"outcome": P.outcome(r), "errors": [e.get("message") for e in r.get("errors", [])] + ([r["error"].get("message")] if "error" in r else [])},
+               modes=(False, True), nontrivial=lambda q, x: q[1][2][:90], exhaustive=True)
+
+
+P.PROPS["C02"]["streams"].append(c02_docstring_closers)
+P.PROPS["C13"]["streams"].append(c02_docstring_closers)
+
+
+def o_c12_gapped_tables(ctx):
+    """rows of a table separated by blank lines and comments are rows of that one table: a cell matrix written with gaps
+    reads back as written (data tables in every step context, examples tables), and a row whose cell count deviates is
+    reported at its own line whatever lies between it and the first row"""
+    impl = impl_mod()
+    r = rng("c12gaps")
+    gaps = ["", "\n", "   \n", "      # note\n", "\n      # note | with | pipes\n\n", "#c\n", "\t\n\n"]
+    ctxs = [("Feature: f\n  Scenario: s\n    Given t\n", "    And more\n", lambda f: f["children"][0]["scenario"]["steps"][0]["dataTable"]["rows"]),
+            ("Feature: f\n  Background:\n    Given t\n", "\n  Scenario: s\n    Given g\n", lambda f: f["children"][0]["background"]["steps"][0]["dataTable"]["rows"]),
+            ("Feature: f\n  Rule: r\n    Scenario: s\n      When t\n", "", lambda f: f["children"][0]["rule"]["children"][0]["scenario"]["steps"][0]["dataTable"]["rows"]),
+            ("Feature: f\n  Rule: r\n    Background:\n      * t\n", "    Scenario: z\n", lambda f: f["children"][0]["rule"]["children"][0]["background"]["steps"][0]["dataTable"]["rows"]),
+            ("Feature: f\n  Scenario Outline: o\n    Given <c>\n    Examples:\n", "\n  @t\n  Scenario: n\n",
+             lambda f: [f["children"][0]["scenario"]["examples"][0]["tableHeader"]] + f["children"][0]["scenario"]["examples"][0]["tableBody"]),
+            ("Feature: f\n  Rule: r\n    Scenario Outline: o\n      Given <c>\n      Examples: one\n        | c |\n      Examples: two\n", "",
+             lambda f: [f["children"][0]["rule"]["children"][0]["scenario"]["examples"][1]["tableHeader"]] + f["children"][0]["rule"]["children"][0]["scenario"]["examples"][1]["tableBody"])]
+    items = []
+    for _ in range(S.n_for(400, 6000)):
+        ci = r.randrange(len(ctxs))
+        w = r.randint(1, 3)
+        nrows = r.randint(2, 5)
+        counts = [w] * nrows
+        if r.random() < 0.4:
+            counts[r.randrange(1, nrows)] = r.choice([x for x in (0, 1, 2, 3, 4) if x != w])
+        items.append((ci, counts, [r.choice(gaps) for _ in range(nrows)]))
+
+    def check(it):
+        ci, counts, gs = it
+        pre, post, rows_of = ctxs[ci]
+        src, line, lines, mat = pre, pre.count("\n"), [], []
+        for i, k in enumerate(counts):
+            g = gs[i] if i else ""
+            src += g
+            line += g.count("\n")
+            cells = ["r%dc%d" % (i, j) for j in range(k)]
+            src += "      |" + "".join(" %s |" % c for c in cells) + "\n"
+            line += 1
+            lines.append(line)
+            mat.append(cells)
+        src += post
+        res = impl.parse(False, "en", src)
+        bad = [i for i, k in enumerate(counts) if k != counts[0]]
+        if not bad:
+            if "ok" not in res:
+                return {"what": "a rectangular table written with blank lines and comments between its rows is rejected", "source": src, "result": canon(res)[:300]}
+            rows = rows_of(res["ok"]["feature"])
+            got = [[c["value"] for c in rw["cells"]] for rw in rows]
+            if got != mat or [rw["location"]["line"] for rw in rows] != lines:
+                return {"what": "a table written with gaps between its rows does not read back as written", "source": src, "got": got, "lines": [rw["location"]["line"] for rw in rows]}
+            return None
+        errs = res.get("errors", [])
+        if len(errs) != 1 or "inconsistent cell count" not in errs[0]["message"] or errs[0]["location"].get("line") != lines[bad[0]]:
+            return {"what": "a ragged table (gaps between rows) is not reported once, at its first deviating row (line %d)" % lines[bad[0]], "source": src, "result": canon(res)[:300]}
+        return None
+    return oracle("gapped-tables", items, check, describe=lambda it: [it[0], it[1], it[2]])
+
+
+P.PROPS["C12"]["streams"].append(o_c12_gapped_tables)
+P.PROPS["C12"]["sources"] = TABLE_SOURCES
+for _pid in ("C12", "C13"):
+    P.PROPS[_pid]["streams"].append(o_very_long_lines)
+P.PROPS["C17"]["streams"].append(o_error_location_consistency)
+P.PROPS["C18"]["streams"].append(c01_error_line_characters)
+P.PROPS["C05"]["streams"].append(o_interleave)
+# the table the package ships and loads is the master table, whatever property reads keywords through it
+for _pid in sorted(P.PROPS):
+    if o_json_identity not in P.PROPS[_pid]["streams"]:
+        P.PROPS[_pid]["streams"].append(o_json_identity)
